@@ -1472,7 +1472,7 @@ class Normalizer:
 
     def __init__(self, raw_block: tuple, keep_identity: bool = True):
         self.rounds: list = []
-        block = raw_block
+        block = _ret_peephole(raw_block)
         defs = single_defs(block, keep_identity)
         for _ in range(6):
             if not defs:
@@ -1500,6 +1500,29 @@ class Normalizer:
         for defs in self.rounds:
             s = deref(s, defs)
         return s if self.identity else Sigma(raw_subst=self.mapping).apply(s)
+
+
+def _ret_peephole(block: tuple) -> tuple:
+    """``v = e; return f(v)`` is ``return f(e)`` whatever else assigns v: the return ends the flow, so this definition
+    of the numbered local reaches nothing else."""
+    out: list = []
+    for st in block:
+        if isinstance(st, tuple) and st:
+            if st[0] == "if" and len(st) == 4:
+                st = ("if", st[1], _ret_peephole(st[2]), _ret_peephole(st[3]))
+            elif st[0] == "for" and len(st) == 5:
+                st = ("for", st[1], st[2], _ret_peephole(st[3]), _ret_peephole(st[4]))
+            elif st[0] == "while" and len(st) == 4:
+                st = ("while", st[1], _ret_peephole(st[2]), _ret_peephole(st[3]))
+            elif st[0] == "with" and len(st) == 3:
+                st = ("with", st[1], _ret_peephole(st[2]))
+            elif st[0] == "ret" and out and isinstance(out[-1], tuple) and len(out[-1]) == 3 and out[-1][0] == "set" \
+                    and isinstance(out[-1][1], tuple) and out[-1][1][:1] == ("v",) and contains(st[1], out[-1][1]) \
+                    and not contains(out[-1][2], out[-1][1]):
+                prev = out.pop()
+                st = ("ret", subst(st[1], {prev[1]: prev[2]}))
+        out.append(st)
+    return tuple(out)
 
 
 def normalize(block: tuple, keep_identity: bool = True) -> tuple:
